@@ -67,7 +67,7 @@ func sessionOracle(tr []h.Event, backendPanics bool, log string) *h.Finding {
 
 func evalC08Cut(c CutCase) *h.Finding {
 	o, _ := runCut(c)
-	desc := fmt.Sprintf("conv=%s/%s cut=%d/%d term=%s peroctet=%t sent=%q", c.Conv.Name, c.Conv.Mode, c.Cut, len(c.Conv.In), c.Term, c.PerOctet, tailStr(c.Conv.In[:c.Cut], 60))
+	desc := fmt.Sprintf("conv=%s/%s cut=%d/%d term=%s peroctet=%t perline=%t sent=%q", c.Conv.Name, c.Conv.Mode, c.Cut, len(c.Conv.In), c.Term, c.PerOctet, c.PerLine, tailStr(c.Conv.In[:c.Cut], 60))
 	if f := o.Sanity("c08", desc); f != nil {
 		return f
 	}
@@ -255,7 +255,7 @@ func C08(tier string) int {
 			}
 		}
 	}
-	run.Rule = fmt.Sprintf("(a) corpus of %d conversations (DATA/BDAT transfers, AUTH, several transactions, errors; SMTP, LMTP, LMTP per-recipient) cut at EVERY byte offset x terminal answer {EOF, timeout, reset} x {one segment, one octet per segment}; (b) %d close-reason cases: connection states {fresh, greeted, authenticated, MAIL, RCPT, mid-BDAT, after a message} x server-initiated close {QUIT, 4th protocol error, over-long line, backend panic in Mail/Rcpt/Data/BDAT delivery/Reset} x every suffix and every single element of a pool of %d follow-up commands already buffered behind the closing command x {same segment, next segment, per octet}. All executions run in synctest bubbles: the bubble must drain (no goroutine of the connection left). Distinct by construction; non-trivial = a session exists at the cut / a suffix is buffered. (d) idle-timeout arming: ReadTimeout/WriteTimeout one minute on the virtual clock, a peer that pauses 40 s before every segment of 6 conversations x 3 modes - every wait must be under a freshly armed deadline, the last wait ends in 421; (e) a silence of five minutes (ReadTimeout one minute) at 7 points of a conversation (before/after the greeting, awaiting the answer to a 334, inside a transaction, a message, a chunk, between chunks) followed by more commands: nothing sent after the timeout is executed, the connection is closed; (f) the same silence at EVERY byte offset of every corpus conversation x {one segment, per octet}, followed by the rest of the conversation and more commands: closed, nothing executed afterwards, and output and callbacks identical to those of the conversation cut by a timeout at that offset (differential); (c) STARTTLS conversations over a real TLS layer: {handshake completes, the client sends non-handshake octets, the client hangs up instead} x 5 plaintext prefixes (none ... mid-BDAT) x 7 continuations x 3 terminal answers, judged per session. Oracle on the backend trace: every session gets exactly one Logout, no callback begins after it, no session is created after the end, no recovered panic unless the backend panicked, output identical to the conversation without the buffered suffix.", len(corpus), len(closeCases), len(pool))
+	run.Rule = fmt.Sprintf("(a) corpus of %d conversations (DATA/BDAT transfers, AUTH, several transactions, errors; SMTP, LMTP, LMTP per-recipient) cut at EVERY byte offset x terminal answer {EOF, timeout, reset} x {one segment, one octet per segment, one segment per LF-terminated piece}; (b) %d close-reason cases: connection states {fresh, greeted, authenticated, MAIL, RCPT, mid-BDAT, after a message} x server-initiated close {QUIT, 4th protocol error, over-long line, backend panic in Mail/Rcpt/Data/BDAT delivery/Reset} x every suffix and every single element of a pool of %d follow-up commands already buffered behind the closing command x {same segment, next segment, per octet}. All executions run in synctest bubbles: the bubble must drain (no goroutine of the connection left). Distinct by construction; non-trivial = a session exists at the cut / a suffix is buffered. (d) idle-timeout arming: ReadTimeout/WriteTimeout one minute on the virtual clock, a peer that pauses 40 s before every segment of 6 conversations x 3 modes - every wait must be under a freshly armed deadline, the last wait ends in 421; (e) a silence of five minutes (ReadTimeout one minute) at 7 points of a conversation (before/after the greeting, awaiting the answer to a 334, inside a transaction, a message, a chunk, between chunks) followed by more commands: nothing sent after the timeout is executed, the connection is closed; (f) the same silence at EVERY byte offset of every corpus conversation x {one segment, per octet}, followed by the rest of the conversation and more commands: closed, nothing executed afterwards, and output and callbacks identical to those of the conversation cut by a timeout at that offset (differential); (c) STARTTLS conversations over a real TLS layer: {handshake completes, the client sends non-handshake octets, the client hangs up instead} x 5 plaintext prefixes (none ... mid-BDAT) x 7 continuations x 3 terminal answers, judged per session. Oracle on the backend trace: every session gets exactly one Logout, no callback begins after it, no session is created after the end, no recovered panic unless the backend panicked, output identical to the conversation without the buffered suffix.", len(corpus), len(closeCases), len(pool))
 	run.Assumptions = []string{"an unterminated fragment that the line reader hands out before it reports EOF counts as input received before the disconnect", "for STARTTLS conversations (two sessions per connection) the oracle is per session: exactly one Logout each, nothing on a session after its own Logout"}
 
 	type job struct{ ci, cut int }
@@ -272,8 +272,8 @@ func C08(tier string) int {
 		j := jobs[i]
 		cv := corpus[j.ci]
 		for _, term := range terms {
-			for _, per := range []bool{false, true} {
-				c := CutCase{Conv: cv, Cut: j.cut, Term: term, PerOctet: per}
+			for _, per := range []int{0, 1, 2} {
+				c := CutCase{Conv: cv, Cut: j.cut, Term: term, PerOctet: per == 1, PerLine: per == 2}
 				f := evalC08Cut(c)
 				run.Eval(j.cut >= len(hello(cv.Mode)))
 				if f != nil {
